@@ -292,12 +292,12 @@ Qed.
 (* ------------------------------------------------------------------ *)
 Lemma shm_plan_run rep env argv stdin o N F : shm_plan_of rep env argv stdin = PlanRun o N F ->
   shm_parse_args env argv = PaOk o /\
-  parse_dimacs true (shm_input_text env o stdin) = DOk N F /\
+  parse_dimacs (shm_universal o) (shm_input_text env o stdin) = DOk N F /\
   so_nop o && (shm_word <=? N) = false.
 Proof.
   unfold shm_plan_of. destruct (shm_parse_args env argv) as [o'| | |]; try discriminate.
   destruct (match so_input o' with Some f => shm_mem f (so_outs o') | None => false end); [discriminate|].
-  destruct (parse_dimacs true (shm_input_text env o' stdin)) as [N' F'|e k] eqn:Ep; [|discriminate].
+  destruct (parse_dimacs (shm_universal o') (shm_input_text env o' stdin)) as [N' F'|e k] eqn:Ep; [|discriminate].
   destruct (so_nop o' && (shm_word <=? N')) eqn:Ew; [destruct rep; discriminate|].
   intros H. inversion H; subst. repeat split; assumption.
 Qed.
@@ -306,13 +306,13 @@ Qed.
 Lemma shm_plan_stop rep env argv stdin r : shm_plan_of rep env argv stdin = PlanStop r ->
   r = ShmOutside \/ r = ShmCliError \/
   (r = ShmCrash /\ rep = false /\ exists o N F, shm_parse_args env argv = PaOk o /\
-     parse_dimacs true (shm_input_text env o stdin) = DOk N F /\ so_nop o = true /\ shm_word <= N).
+     parse_dimacs (shm_universal o) (shm_input_text env o stdin) = DOk N F /\ so_nop o = true /\ shm_word <= N).
 Proof.
   unfold shm_plan_of. destruct (shm_parse_args env argv) as [o'| | |] eqn:Ea;
     try (intros H; inversion H; auto; fail).
   destruct (match so_input o' with Some f => shm_mem f (so_outs o') | None => false end);
     [intros H; inversion H; auto|].
-  destruct (parse_dimacs true (shm_input_text env o' stdin)) as [N' F'|e k] eqn:Ep;
+  destruct (parse_dimacs (shm_universal o') (shm_input_text env o' stdin)) as [N' F'|e k] eqn:Ep;
     [|intros H; inversion H; auto].
   destruct (so_nop o' && (shm_word <=? N')) eqn:Ew; [|discriminate].
   destruct rep; intros H; inversion H; auto.
@@ -374,7 +374,7 @@ Theorem shm_is_renaming rep env argv stdin oracle dest t :
   cnfshuffle_main_gen rep env argv stdin oracle = ShmOut dest t ->
   exists o N F out flips perm cperm,
     shm_parse_args env argv = PaOk o /\ dest = so_output o /\
-    parse_dimacs true (shm_input_text env o stdin) = DOk N F /\
+    parse_dimacs (shm_universal o) (shm_input_text env o stdin) = DOk N F /\
     (forall u, parse_dimacs u t = DOk N out) /\
     0 <= N /\ lits_in_range N F = true /\ lits_in_range N out = true /\
     length out = length F /\ Permutation (map (@length Z) F) (map (@length Z) out) /\
@@ -455,7 +455,7 @@ Theorem shm_fixed_identity rep env argv stdin o :
   forall oracle,
     cnfshuffle_main_gen rep env argv stdin oracle = cnfshuffle_main_gen rep env argv stdin [] /\
     forall dest t, cnfshuffle_main_gen rep env argv stdin oracle = ShmOut dest t ->
-      exists N F, parse_dimacs true (shm_input_text env o stdin) = DOk N F /\
+      exists N F, parse_dimacs (shm_universal o) (shm_input_text env o stdin) = DOk N F /\
                   t = print_dimacs (shm_out_header env o) None N F /\
                   forall u, parse_dimacs u t = DOk N F.
 Proof.
@@ -502,7 +502,7 @@ Qed.
 Theorem shm_crash_only_overflow env argv stdin oracle :
   cnfshuffle_main_env env argv stdin oracle = ShmCrash ->
   exists o N F, shm_parse_args env argv = PaOk o /\
-                parse_dimacs true (shm_input_text env o stdin) = DOk N F /\ so_nop o = true /\ shm_word <= N.
+                parse_dimacs (shm_universal o) (shm_input_text env o stdin) = DOk N F /\ so_nop o = true /\ shm_word <= N.
 Proof.
   unfold cnfshuffle_main_env, cnfshuffle_main_gen, shm_run.
   destruct (shm_plan_of false env argv stdin) as [o N F|r] eqn:Ep.
@@ -517,7 +517,7 @@ Lemma shm_plan_repaired env argv stdin :
 Proof.
   unfold shm_plan_of. destruct (shm_parse_args env argv) as [o| | |]; auto.
   destruct (match so_input o with Some f => shm_mem f (so_outs o) | None => false end); auto.
-  destruct (parse_dimacs true (shm_input_text env o stdin)) as [N F|e k]; auto.
+  destruct (parse_dimacs (shm_universal o) (shm_input_text env o stdin)) as [N F|e k]; auto.
   destruct (so_nop o && (shm_word <=? N)); auto.
 Qed.
 Theorem shm_repaired_agrees env argv stdin oracle :
@@ -689,7 +689,7 @@ Theorem shm_options_independent rep env argv stdin oracle dest t :
   cnfshuffle_main_gen rep env argv stdin oracle = ShmOut dest t ->
   exists o N F out sigma,
     shm_parse_args env argv = PaOk o /\
-    parse_dimacs true (shm_input_text env o stdin) = DOk N F /\
+    parse_dimacs (shm_universal o) (shm_input_text env o stdin) = DOk N F /\
     (forall u, parse_dimacs u t = DOk N out) /\
     signed_map N sigma /\ Permutation out (map (map sigma) F) /\
     (so_nop o = true -> forall l, inrange N l -> (0 < sigma l <-> 0 < l)) /\
